@@ -57,7 +57,26 @@ def routed_scenario(actions, steps):
     return '(routed %s %s)' % (rt, sc)
 
 # ---- equivalent routes for one logical binding sequence ----
-def equivalent_routes(rng, logical, each_mods):
+def equivalent_routes(rng, logical, each_mods, each_conds=()):
+    each_conds = list(each_conds)
+    if each_conds:
+        # conditions attached to every element through with_conditions_each, on top of the elements' own ones
+        n = len(logical)
+        base = [r_single(i, m + list(each_mods), c) for i, m, c in logical]
+        full = [r_single(i, m + list(each_mods), c + each_conds) for i, m, c in logical]
+        out = [('repeated-to-conds', full)]
+        if n <= 4:
+            out.append(('conds-each-tuple', [r_conds_each(r_tuple(*base), each_conds)]))
+            out.append(('conds-each-single', [r_conds_each(b_, each_conds) for b_ in base]))
+            if len(each_conds) == 2:
+                out.append(('conds-each-twice', [r_conds_each(r_conds_each(r_tuple(*base), each_conds[:1]), each_conds[1:])]))
+            if each_mods:
+                plain = [r_single(i, m, c) for i, m, c in logical]
+                out.append(('mods-and-conds-each', [r_conds_each(r_mods_each(r_tuple(*plain), list(each_mods)), each_conds)]))
+        return out
+    return _equivalent_routes(rng, logical, each_mods)
+
+def _equivalent_routes(rng, logical, each_mods):
     """logical: list of (input, own mods, own conds); each_mods: modifiers appended to every element"""
     n = len(logical)
     full = [r_single(i, m + each_mods, c) for i, m, c in logical]
@@ -90,6 +109,10 @@ def rand_frames(rng, L, keys=(0, 1, 2, 3)):
     return steps
 
 def cases(tier, rng):
+    for c, tag in _cases(tier, rng):
+        yield (c if c.startswith('(rmulti') else '(rmulti [%s])' % c, tag)
+
+def _cases(tier, rng):
     # (a) construction routes
     for _ in range(120 if tier == 'thorough' else 25):
         ids = Ids()
@@ -103,15 +126,29 @@ def cases(tier, rng):
             if plain: logical.append((inp, [], []))
             else:
                 logical.append((inp, [(ids.next(), m_script([None if rng.random() < .5 else rand_value(rng, rng.randrange(4)) for _ in range(L + 1)]))] if rng.random() < .6 else [],
-                                [(ids.next(), c_script(rng.choice(KINDS), [rng.choice(STATES) for _ in range(L + 1)]))] if rng.random() < .5 else []))
+                                [(ids.next(), c_script(rng.choice(KINDS), [rng.choice(STATES) for _ in range(L + 1)])) for _ in range(rng.choice([0, 1, 1, 2]))]))
         each = [(ids.next(), rng.choice(['(m_negate true false false)', '(m_scale 1/2 3/1 1/1)', '(m_swizzle YXZ)']))] if rng.random() < .6 else []
         if each and rng.random() < .4: each.append((ids.next(), '(m_scale -2/1 1/1 1/1)'))
+        each_c = [(ids.next(), c_script(rng.choice(KINDS), [rng.choice(STATES) for _ in range(L + 1)])) for _ in range(rng.choice([0, 0, 1, 2]))]
         st = rng.getstate()
         steps = rand_frames(rng, L)
         a = aid(rng.randrange(4), 0, rng.random() < .5, rng.random() < .3)
-        for name, routes in equivalent_routes(rng, logical, each):
-            yield (routed_scenario([(a, routes)], steps), 'route-' + name)
-    # binding an action a second time extends it in place
+        variants = equivalent_routes(rng, logical, each, each_c)
+        yield ('(rmulti [%s])' % ' '.join(routed_scenario([(a, routes)], steps) for _, routes in variants), 'routes-x%d' % len(variants))
+    # binding an action a second time extends it in place: P (consuming), Q (same key, listens), then P again with one more
+    # input; whether Q sees the key depends on P keeping its place in the evaluation order
+    for _ in range(40 if tier == 'thorough' else 10):
+        ids = Ids()
+        P = aid(rng.randrange(4), 1, True, False); Q = aid(rng.randrange(4), 2, False, False); R = aid(0, 3, False, False)
+        k0, k1 = rng.sample([0, 1, 2, 3], 2)
+        steps = rand_frames(rng, rng.randint(5, 9))
+        first = [r_single(key(k0), [(ids.next(), PROBE)], [])]
+        again = [r_single(key(k1), [(ids.next(), PROBE)], [])]
+        qb = [r_single(key(k0), [(ids.next(), PROBE)], []), r_single(key(k1), [(ids.next(), PROBE)], [(ids.next(), '(c_block_by %d false)' % P)])]
+        rb = [r_single(key(k1), [(ids.next(), PROBE)], [(ids.next(), '(c_chord %d)' % P)])]
+        # the same action bound once with both inputs must behave identically
+        yield ('(rmulti [%s %s])' % (routed_scenario([(P, first + again), (Q, qb), (R, rb)], steps),
+                                     routed_scenario([(P, first), (Q, qb), (R, rb), (P, again)], steps)), 'rebind-in-place')
     # (b) presets: Cardinal from four arbitrary distinct keys, all assignments, every subset of directions
     A2 = aid(2, 0, False, False)
     def compass_steps(inputs_down):
@@ -150,14 +187,14 @@ def cases(tier, rng):
 def nontrivial(case, out):
     return 'SFired' in out
 
-STAGES = [dict(name='routes', mode='app', coq='Check.C19c', cases=cases, nontrivial=nontrivial, shard=20,
+STAGES = [dict(name='routes', mode='app', coq='Check.C19m', noshrink=True, cases=cases, nontrivial=nontrivial, shard=20,
                exhaustive={'thorough': False, 'quick': False},
                rule='(a) for each of 25 (quick) / 120 (thorough) generated logical binding sequences of 1-4 inputs (with own scripted modifiers/conditions and 0-2 modifiers attached to every element), the action is '
                     'built through every route of the menu that denotes it - repeated to() calls, flat tuple, nested tuples, mixed calls, with_modifiers_each over tuples, slices, &Vec, arrays, tuples of slices - all through '
-                    'the crate\'s own InputBindSet impls, and run on the same random script; every trace must equal the model\'s run of the logical sequence. (b) Cardinal built from four arbitrary distinct keys in every '
+                    'the crate\'s own InputBindSet impls, and run on the same random script; every trace must equal the model\'s run of the logical sequence. with_conditions_each (once, twice, combined with with_modifiers_each) over elements that already carry conditions; an action bound, others bound, then the first bound again with one more input while a later action listens on its consumed key. (b) Cardinal built from four arbitrary distinct keys in every '
                     '(quick: every 4th) assignment, from gamepad buttons, from two-key Vecs per direction, on all output types; Bidirectional; both sticks; the built-in WASD / arrow / d-pad sets; every subset of directions pressed. '
                     'non-trivial = some action fires; distinct = distinct case text')]
-CLAUSES = {1: 'internal: a route of the generator does not denote the logical binding sequence of the case (Model/Bind.denote)', 2: 'a preset does not match the compass: expected (east - west, north - south) / (positive - negative)',
+CLAUSES = {1: 'internal: a route of the generator does not denote the logical binding sequence of the case (Model/Bind.denote)', 2: 'a preset does not match the compass: expected (east - west, north - south) / (positive - negative)', 3: 'two construction routes that denote the same binding sequence (or binding an action once vs. twice) behave differently',
            8: 'panic', 9: 'malformed trace', 10: 'panic'}
 def describe(stage, clause): return CLAUSES.get(clause, 'clause %d' % clause)
 def matches_known(k, case, verdict): return False
